@@ -625,11 +625,17 @@ class Unit:
                     continue
                 ed.add(it['hdr_a'], it['body_open'], "impl%s %s " % (m.group(1) or '', m.group(2)), 'T2')
                 body = text[it['body_open']:it['b']]
+                found = 0
                 for fname in [t2['fn']] + list(t2.get('also', [])):
                     fm = re.search(r'\bfn %s\b' % re.escape(fname), body)
                     if not fm:
+                        if t2.get('any'):
+                            continue    # several traits in one table: each impl has its own method
                         raise LostAnchor("T2: no fn %s in %s of %s" % (fname, key, path))
+                    found += 1
                     ed.add(it['body_open'] + fm.start(), it['body_open'] + fm.start(), 'pub ', 'T2')
+                if not found:
+                    raise LostAnchor("T2: none of the listed fns in %s of %s" % (key, path))
                 self.rule('T2', path, line_of(text, it['hdr_a']), '`%s` emitted as inherent `impl%s %s { pub fn %s }` (body verbatim; Verus loses its iterator axioms in functions reached from trait impls)' % (key, m.group(1) or '', m.group(2), t2['fn']))
         # ---- per-function overlays
         fn_spans = []  # (a, b, qualified name)
